@@ -74,6 +74,16 @@ def check_result(ctx, case, entry, opts, as_ir, m2, wf_batch, stats, base=None):
     if lost:
         stage = K.attribute_stage(case, entry, opts, as_ir,
                                   lambda mm: any(not (o.type.HasField("tensor_type") and o.type.tensor_type.elem_type) for o in mm.graph.output))
+        if stage == "pipeline":
+            # which pass of the real pipeline drops the declared type
+            try:
+                from harness import c03_passes as P
+                for pname, _b, a, _m in P.observe(case.model, opts):
+                    if a is not None and any(t0.get(o.name) and not (o.type.HasField("tensor_type") and o.type.tensor_type.elem_type) for o in a.graph.output):
+                        stage = pname
+                        break
+            except Exception:
+                pass
         ctx.violation(f"C04:graph-output-type-lost:{stage}", f"{entry} (opts={opts}): graph outputs {lost} lost their declared type; the result fails onnx.checker",
                       doc({"outputs": lost}))
         stats["violations"] += 1
@@ -149,10 +159,32 @@ def check_result(ctx, case, entry, opts, as_ir, m2, wf_batch, stats, base=None):
                     if sd0 == "ok" and (sd2 != "ok" or any(R.compare_outputs(a, b, case.exact) is not None for a, b in zip(od0, od2))):
                         stats["differs-for-default-values-too(C03)"] += 1
                         o0, o2 = [], []
+                        # ... unless the optimized model no longer DEPENDS on the initializer-input where the original does: a
+                        # consumer of the default was evaluated at optimization time (whatever value it was given)
+                        lost = _dependence_lost(od0, R.run_ort(case.model, full)[1], od2 if sd2 == "ok" else None, R.run_ort(m2, full))
+                        if lost is not None:
+                            names = [n for n, _, _ in case.overridable]
+                            ops = ",".join(_changed_consumers(case.model, m2, names) or ["unknown"])
+                            ctx.violation(f"C04:initializer-input:folded:generic:{ops}",
+                                          f"{entry}: output {lost} of the original model depends on an initializer-input, the same output of the "
+                                          f"optimized model does not (a consumer of the default was evaluated at optimization time)",
+                                          doc({"override": {k: np.asarray(v).tolist() for k, v in ov.items()}}))
+                            stats["violations"] += 1
                     for a, b in zip(o0, o2):
                         dd = R.compare_outputs(a, b, case.exact)
                         if dd is not None:
                             names = [n for n, _, _ in case.overridable]
+                            fams = _rewrite_rule_families(case, names, full) if entry != "fold_constants" else []
+                            if fams:
+                                # the default rewrite rules alone (no folding) already bake the default in: a constant-matching rule
+                                # read const_value of the initializer-input
+                                for fam in fams:
+                                    ctx.violation(f"C04:initializer-input:rewrite-rule-reads-default:{fam}",
+                                                  f"{entry}: a rewrite rule ({fam}) treated the default of an initializer-input as a constant: with "
+                                                  f"override values the optimized model differs: {dd}",
+                                                  doc({"override": {k: np.asarray(v).tolist() for k, v in ov.items()}, "stage": "rewrite"}))
+                                stats["violations"] += 1
+                                break
                             ops = _const_reading_consumers(case.model, names)
                             if not ops:
                                 # no partial evaluator reads these inputs: the generic folding path must have baked the default in
@@ -164,10 +196,59 @@ def check_result(ctx, case, entry, opts, as_ir, m2, wf_batch, stats, base=None):
                                               doc({"override": {k: np.asarray(v).tolist() for k, v in ov.items()}}))
                             stats["violations"] += 1
                             break
+                elif s0 == "ok" and _fails_for_defaults_too(case, m2):
+                    stats["differs-for-default-values-too(C03)"] += 1
                 elif s0 == "ok":
                     ctx.violation(f"C04:initializer-input:optimized-fails-with-override:{_norm_msg(o2)}",
                                   f"{entry}: optimized model fails with override values: {o2[:200]}", doc())
                     stats["violations"] += 1
+
+
+# consumer op of the initializer-input -> family of constant-matching rewrite rules (the names used by C05's findings)
+_RULE_FAMILY = {"Add": "noop", "Sub": "noop", "Mul": "noop", "Div": "noop", "Min": "minmax", "Max": "minmax", "Unsqueeze": "unsqueeze",
+                "Slice": "collapse-slice", "Expand": "expand", "Reshape": "reshape", "ScatterND": "scatternd-static"}
+
+
+def _rewrite_rule_families(case, names, full):
+    """[] unless rewrite() alone (default rules, no constant folding) already makes the model differ for the override values;
+    then the rule families of the consumers of the initializer-inputs that rewrite() changed."""
+    try:
+        m3 = R.apply_entry("rewrite", case.model)
+    except Exception:
+        return []
+    s0, o0 = R.run_ort(case.model, full)
+    s3, o3 = R.run_ort(m3, full)
+    if s0 != "ok" or (s3 == "ok" and all(R.compare_outputs(a, b, case.exact) is None for a, b in zip(o0, o3))):
+        return []
+    ops = _changed_consumers(case.model, m3, names) or ["unknown"]
+    return sorted({_RULE_FAMILY.get(op, op) for op in ops})
+
+
+def _dependence_lost(orig_dflt, orig_over, opt_dflt, opt_over_run):
+    """index of an output that differs between default and override values in the original model on some feed and is identical
+    for both in the optimized model on every feed; None otherwise"""
+    st, opt_over = opt_over_run
+    if opt_dflt is None or st != "ok":
+        return None
+    try:
+        n_out = len(orig_dflt[0])
+        for k in range(n_out):
+            dep0 = any(R.compare_outputs([a[k]], [b[k]], None) is not None for a, b in zip(orig_dflt, orig_over))
+            dep2 = any(R.compare_outputs([a[k]], [b[k]], None) is not None for a, b in zip(opt_dflt, opt_over))
+            if dep0 and not dep2:
+                return k
+    except Exception:
+        return None
+    return None
+
+
+def _fails_for_defaults_too(case, m2):
+    """the optimized model already fails / differs when every initializer-input is fed its DEFAULT value: the difference has
+    nothing to do with overriding (C03's finding, reported there)"""
+    dflt = [dict(fd, **{n: a for n, a, _ in case.overridable}) for fd in case.feeds]
+    sd0, od0 = R.run_ort(case.model, dflt)
+    sd2, od2 = R.run_ort(m2, dflt)
+    return sd0 == "ok" and (sd2 != "ok" or any(R.compare_outputs(a, b, case.exact) is not None for a, b in zip(od0, od2)))
 
 
 def _sub_inits_as_constants(model):
@@ -443,7 +524,8 @@ def run(ctx):
 
     # decision-trace correspondence with initializer-inputs in the generator
     n_trace = 40 if quick else 300
-    tstats = K.trace_stream(ctx, rng, K.dag_stream(rng, n_trace, overridable_every=2, start=5000), "C04")
+    import itertools
+    tstats = K.trace_stream(ctx, rng, itertools.chain(K.alias_stream(rng), K.dag_stream(rng, n_trace, overridable_every=2, start=5000)), "C04")
     agree = tstats["agree"] + tstats["agree(outside-theorem-side-conditions)"]
     ctx.obligation("correspondence fold_constants (models with overridable initializer-inputs): decisions and resulting graph = Opt/Fold.v",
                    tstats["disagree"] == 0 and agree > 0, f"{dict(tstats)}")
@@ -474,7 +556,8 @@ def run(ctx):
 
     n_dag = 90 if quick else 560
     import itertools
-    for c in itertools.chain(K.corpus_stream(rng, "C04"), K.dag_stream(rng, n_dag, overridable_every=3, start=7000)):
+    for c in itertools.chain(K.corpus_stream(rng, "C04"), K.alias_stream(rng, 15 if quick else 60),
+                             K.dag_stream(rng, n_dag, overridable_every=3, start=7000)):
         if not isinstance(c, G.Case):
             discards["generator-error: " + c[1][:60]] += 1
             continue
@@ -491,6 +574,7 @@ def run(ctx):
         if c.kind == "corpus":
             # minimised past failures are replayed under the small size limits too (size-gating code paths)
             plan += [("fold_constants", (1, False, True, True, 8192, 4), False), ("optimize", (1, True, True, True, 8192, 0), True),
+                     ("optimize", (2, False, False, True, 4, 262144), False),
                      ("fold_constants", (1, True, True, True, 0, 0), True)]
         one_case(c, plan, base)
         if stats["valid-dag-models"] % 2 == 0:
